@@ -38,13 +38,22 @@ func c04Config(seed uint64, c int) (*SendScenario, []c04Pos) {
 	r := sim.NewRand(sim.Derive(seed, 4, uint64(c)))
 	sc := &SendScenario{Label: fmt.Sprintf("cfg%d", c)}
 	all := []string{"8BITMIME", "SMTPUTF8", "DSN", "ENHANCEDSTATUSCODES", "STARTTLS", "AUTH"}
+	// one configuration in six spells the service extensions the way RFC 5321 4.1.1.1 allows
+	// and few servers do: not in upper case (STARTTLS and AUTH keep their usual spelling, the
+	// generator itself looks for them)
+	spell := r.Intn(12)
 	pick := func() []string {
 		var caps []string
 		for _, k := range all {
 			if r.Chance(1, 2) {
-				if k == "AUTH" {
+				switch {
+				case k == "AUTH":
 					caps = append(caps, "AUTH PLAIN LOGIN")
-				} else {
+				case k != "STARTTLS" && spell == 0:
+					caps = append(caps, strings.ToLower(k))
+				case k != "STARTTLS" && spell == 1:
+					caps = append(caps, k[:1]+strings.ToLower(k[1:]))
+				default:
 					caps = append(caps, k)
 				}
 			}
@@ -235,6 +244,11 @@ func (p *c04) Gen(seed uint64, i int, tier string) (any, bool) {
 		// ("*") before anything else is said
 		sc.Server.Rules = append(sc.Server.Rules, refsmtpd.Rule{Verb: sim.Pick(r, []string{"AUTH", "AUTHRESP"}), Nth: 1, Action: refsmtpd.Action{Kind: "raw", Code: 334, Text: "b25lIG1vcmUgdGhpbmc/"}})
 	}
+	if r.Chance(1, 3) {
+		// a recipient accepted with 251/252 is accepted (RFC 5321 3.4, 3.5.3): with and without
+		// DSN parameters on the command
+		sc.Server.Rules = append(sc.Server.Rules, refsmtpd.Rule{Verb: "RCPT", Nth: 1 + r.Intn(3), Action: refsmtpd.Action{Code: sim.Pick(r, []int{251, 252}), Text: "user not local; will forward"}})
+	}
 	sc.Sched = sim.Derive(seed, 4, 998, uint64(idx))
 	sc.Label += "/random"
 	if sc.Op == "dialandsend" && r.Chance(1, 5) {
@@ -343,6 +357,12 @@ func (p *c04) Exec(t *testing.T, scAny any) Outcome {
 			tok := strings.TrimPrefix(e.Cmd.Path.Local, "sender-")
 			if encOfTok[tok] == "8bit" && !strings.Contains(","+e.Ext+",", ",8BITMIME,") {
 				out.violate("C04:8bit-without-8BITMIME", "message %s has 8bit encoding, the latest EHLO reply did not offer 8BITMIME (extensions in force: %q), yet MAIL was sent: %q", tok, e.Ext, e.Line)
+			}
+			// ... and when it is sent, the transaction has to be declared 8bit (RFC 6152 section 3):
+			// the client's two views of one EHLO reply ("may I send it" / "what do I put on
+			// MAIL") must agree however the server spelled the keyword
+			if encOfTok[tok] == "8bit" && !strings.Contains(strings.ToUpper(e.Line), " BODY=8BITMIME") {
+				out.violate("C04:8bit-in-a-transaction-declared-7bit", "message %s has 8bit encoding and MAIL was sent without BODY=8BITMIME (extensions in force: %q): %q", tok, e.Ext, e.Line)
 			}
 		}
 	}
